@@ -171,32 +171,54 @@ def reader(ctx, rule="R16.codec-alone"):
 
 
 def loaders(ctx, rule="R16.codec-alone"):
-    """The page loaders choose between the raw bytes and decompress_page by the codec tag alone."""
+    """The four page loaders, executed abstractly once per codec value (and with equal / different stored
+    and uncompressed sizes): UNCOMPRESSED hands the stored bytes to the decoder as they are; every
+    implemented codec sends exactly the stored bytes through its own decompressor and hands on the
+    result; anything else is refused. Nothing but the codec tag decides."""
+    from . import loaders as LD, sem
     P = ctx.P
+    codecs = dict(P.enum("carquet_compression"))
+    codecs["<unknown 99>"] = 99
+    pairs = {"CARQUET_COMPRESSION_SNAPPY": "snappy", "CARQUET_COMPRESSION_LZ4": "lz4", "CARQUET_COMPRESSION_LZ4_RAW": "lz4",
+             "CARQUET_COMPRESSION_GZIP": "gzip", "CARQUET_COMPRESSION_ZSTD": "zstd"}
+    pt = P.enum("carquet_page_type")
     n = 0
-    for fn in P.funcs_in(PR):
-        for c in fn.calls("decompress_page"):
-            sel = None
-            child = c
-            for a in c.ancestors():
-                if a.k == "IfStmt":
-                    cond = [x for x in a.c if x is not None][0]
-                    if any(x.k == "DeclRefExpr" and x.name == UNC for x in cond.walk()):
-                        sel = (a, cond)
-                        break
-                child = a
-            n += 1
-            key = "codec-alone|%s:%s|select" % (PR, fn.name)
-            if sel is None:
-                ctx.ok(rule, key, P.where(c), "%s always goes through decompress_page" % fn.name, "unconditional")
-                continue
-            cond = sel[1].strip()
-            exact = cond.k == "BinaryOperator" and cond.op in ("==", "!=") and \
-                any(s.strip_casts().k == "DeclRefExpr" and s.strip_casts().name == UNC for s in cond.c) and \
-                any(s.strip_casts().k == "MemberExpr" and s.strip_casts().name == "codec" for s in cond.c)
-            ctx.ob(rule, key, P.where(sel[0]),
-                   "%s selects raw bytes vs decompress_page by `codec == UNCOMPRESSED` alone" % fn.name, exact, src(cond)[:80])
-    ctx.floor("decompress_page call sites", n, 4)
+    for name in LD.LOADERS:
+        isdict = "dictionary" in name
+        base = LD.DICT_OFF if isdict else LD.DATA_OFF
+        fn = P.fn(name, PR)
+        bad = None
+        try:
+            for cname, cval in sorted(codecs.items(), key=lambda kv: kv[1]):
+                for csize, usize in ((120, 480), (120, 120), (480, 120)):
+                    n += 1
+                    ret, ev, out = LD.trace(P, name, pt["CARQUET_PAGE_DICTIONARY"] if isdict else pt["CARQUET_PAGE_DATA"],
+                                            0, 1, 0, 0, cval, csize=csize, usize=usize)
+                    if "fread" in name:
+                        rd = [e for e in ev if e[0] == "read" and e[1] == base + LD.HEADER_SIZE]
+                        payload = rd[0][2] if rd else None
+                    else:
+                        payload = ("map", base + LD.HEADER_SIZE)
+                    dec = [e for e in ev if e[0] == "decompress"]
+                    cons = [e for e in ev if e[0] in ("consume-dict", "consume-page")]
+                    sc = "%s, %d stored / %d uncompressed bytes" % (cname, csize, usize)
+                    if cname == "CARQUET_COMPRESSION_UNCOMPRESSED":
+                        ok = ret == 0 and not dec and len(cons) == 1 and cons[0][1] == payload and cons[0][2] == csize
+                    elif cname in pairs:
+                        ok = ret == 0 and len(dec) == 1 and dec[0][1] == pairs[cname] and dec[0][2] == payload and dec[0][3] == csize \
+                            and dec[0][5] == usize and len(cons) == 1 and cons[0][1] == dec[0][4] and cons[0][2] == usize
+                    else:
+                        ok = isinstance(ret, int) and ret != 0 and not cons
+                    if not ok and bad is None:
+                        bad = "%s: returns %s, codec calls %s, decoder input %s (stored bytes at %s)" % (sc, ret, dec, cons, payload)
+            ctx.ob(rule, "codec-alone|%s:%s|select" % (PR, name), P.where(fn.body),
+                   "%s: the codec tag alone decides - UNCOMPRESSED pages are decoded as stored, every implemented codec goes through its own "
+                   "decompressor with exactly the stored bytes, other tags are refused (abstract execution per codec value x size relation)" % name,
+                   bad is None, bad or "")
+        except (sem.Inconclusive, KeyError) as ex:
+            ctx.inconclusive(rule, "codec-alone|%s:%s|select" % (PR, name), P.where(fn.body), "abstract execution of %s" % name,
+                             "%s: %s" % (type(ex).__name__, ex))
+    ctx.floor("loader codec scenarios", n, 80)
 
 
 PLAIN_TYPES = {"CARQUET_PHYSICAL_BOOLEAN": "boolean", "CARQUET_PHYSICAL_INT32": "int32",
